@@ -2,7 +2,7 @@
    implementation's outputs). *)
 From Coq Require Import NArith List Bool String.
 From DBG Require Import Interop.Val Spec.Dna Spec.GraphIndex Packed.ExtsModel Algo.Compress Algo.GraphModel
-  Algo.Recompress Check.RecompCheck Check.RecompLooseCheck Check.RecompOrder.
+  Algo.Recompress Algo.IsCompressed Check.RecompCheck Check.RecompLooseCheck Check.RecompOrder.
 Import ListNotations.
 Open Scope N_scope.
 
@@ -20,6 +20,11 @@ Definition rv_censor (v : val) : option (option (list nat)) :=
   | VL [VL ids] => match vlistN ids with Some l => Some (Some (map N.to_nat l)) | None => None end
   | _ => None
   end.
+
+(* a reduction for which payload equality is NOT a congruence: colours are summed (ids appended) *)
+Definition rpay_reduce_sum (a b : rpay) : rpay := (fst a + fst b, snd a ++ snd b).
+Definition of_opair (o : option (nat * nat)) : val :=
+  match o with Some (a, b) => VL [VL [ofnat a; ofnat b]] | None => VL [] end.
 
 Definition recomp_ops : list (string * handler) :=
   [ ("r.compress_graph"%string, fun a => match a with [VN k; st; VN mode; g; c] =>
@@ -56,6 +61,17 @@ Definition recomp_ops : list (string * handler) :=
     ("chk.c09.payload"%string, fun a => match a with [VN k; st; g; o] =>
         match vbool st, rv_graph g, rv_graph o with
         | Some s, Some G, Some Og => Some (ofbool (chk_payload (N.to_nat k) s G Og)) | _, _, _ => None end | _ => None end);
+    (* DebruijnGraph::is_compressed of the crate (model Algo/IsCompressed.v), compared on implementation outputs *)
+    ("r.is_compressed"%string, fun a => match a with [VN k; st; VN mode; g] =>
+        match vbool st, rv_graph g with
+        | Some s, Some G => Some (of_opair (is_compressed rpay (rpay_join mode) (N.to_nat k) s G)) | _, _ => None end | _ => None end);
+    (* known finding F11: with join = colour equality and reduce = colour SUM the release build returns the graph the
+       model returns; the debug build dies in debug_assert!(is_compressed == None).  1 = the model returns a graph *)
+    ("chk.c09.dbg_assert"%string, fun a => match a with [VN k; st; g] =>
+        match vbool st, rv_graph g with
+        | Some s, Some G => Some (ofbool (match compress_graph rpay rpay_reduce_sum (rpay_join 1) (N.to_nat k) s G None with
+                                          | Some _ => true | None => false end))
+        | _, _ => None end | _ => None end);
     ("chk.c09.payload_order"%string, fun a => match a with [VN k; st; g; o] =>
         match vbool st, rv_graph g, rv_graph o with
         | Some s, Some G, Some Og => Some (ofbool (chk_payload_order (N.to_nat k) s G Og)) | _, _, _ => None end | _ => None end);
